@@ -23,7 +23,7 @@ import re
 from simkit import seeds, docgen
 from simkit.ddmin import ddmin_list
 from simkit.eventlog import EventLog, digest_of, canon, norm_msg
-from simkit.snapshot import token_core, doc_snapshot, constants_snapshot, obj_tuple, errors_snapshot
+from simkit.snapshot import token_core, doc_snapshot, constants_snapshot, obj_tuple, errors_snapshot, subsumes
 from simkit.simfs import SimFS, PREFIX
 from simkit import interrupt as intr
 from simkit.runner import kernpy_src
@@ -492,14 +492,14 @@ class C14:
 
         def after_op(opname, idx):
             s = doc_snapshot(L)
-            if s != snap0:
-                where = self._first_diff(snap0, s)
+            where = subsumes(snap0, s)
+            if where:
                 add_v('document-mutated', f'document-mutated/by={opname}', 'snapshot taken right after import', where, op=opname, index=idx, where=where)
                 snap0.clear()
                 snap0.update(s)          # report one mutation once
             c = constants_snapshot()
-            if c != const0:
-                keys = sorted(k for k in set(c) | set(const0) if c.get(k) != const0.get(k))
+            if subsumes(const0, c):
+                keys = sorted(k for k in const0 if subsumes(const0.get(k), c.get(k, '<removed>')))
                 add_v('constant-mutated', f'constant-mutated/{keys[0] if keys else "?"}/by={opname}', 'module constants as at the start of the run', keys,
                       op=opname, index=idx)
                 const0.clear()
@@ -516,6 +516,7 @@ class C14:
                 add_v('imports-distinguishable', f'imports-distinguishable/item{k}', *self._clip_pair(b1[k], b2[k]))
             if doc_snapshot(F0) != snap0:
                 add_v('imports-distinguishable', 'imports-distinguishable/snapshot', 'equal snapshots', self._first_diff(snap0, doc_snapshot(F0)))
+                # (two snapshots taken at the same moment by the same code: plain equality is the right comparison here)
         except Exception as e:
             add_v('import-raised', 'import-raised/second', 'a document', type(e).__name__)
         after_op('battery', -1)
